@@ -1,7 +1,7 @@
 package main
 
 // Trait-level subscriptions: the Pull… adapters of the trait models (a goroutine that ranges over the
-// pkg/resource channel and re-sends typed changes) and, for one representative trait, the generated-style gRPC
+// pkg/resource channel and re-sends typed changes) and, for the same ten traits, the ModelServer's gRPC
 // handler on top (`for change := range model.Pull…(ctx) { stream.Send }`, no ctx case of its own).  The
 // property is the same as for pkg/resource: cancelling the context at any moment — also after the consumer
 // stopped receiving while writers were active — ends every goroutine started for the subscription.
@@ -114,31 +114,121 @@ func openAdapter(name string, ctx context.Context, opts ...resource.ReadOption) 
 	return nil
 }
 
-// fakeOnOffStream: a server stream whose Send starts failing after `failFrom` messages (the client went away)
-type fakeOnOffStream struct {
+// fakeStream: a server stream (of responses R) whose Send starts failing after `failFrom` messages (the client went
+// away); it satisfies every generated `…Api_Pull…Server` interface.
+type fakeStream[R any] struct {
 	ctx      context.Context
 	n        int
 	failFrom int
-	sent     chan struct{}
 }
 
-func (s *fakeOnOffStream) Send(*traits.PullOnOffResponse) error {
+func (s *fakeStream[R]) Send(*R) error {
 	s.n++
 	if s.n > s.failFrom {
 		return errors.New("transport is closing")
 	}
-	select {
-	case s.sent <- struct{}{}:
-	default:
-	}
 	return nil
 }
-func (s *fakeOnOffStream) Context() context.Context     { return s.ctx }
-func (s *fakeOnOffStream) SetHeader(metadata.MD) error  { return nil }
-func (s *fakeOnOffStream) SendHeader(metadata.MD) error { return nil }
-func (s *fakeOnOffStream) SetTrailer(metadata.MD)       {}
-func (s *fakeOnOffStream) SendMsg(any) error            { return nil }
-func (s *fakeOnOffStream) RecvMsg(any) error            { return nil }
+func (s *fakeStream[R]) Context() context.Context     { return s.ctx }
+func (s *fakeStream[R]) SetHeader(metadata.MD) error  { return nil }
+func (s *fakeStream[R]) SendHeader(metadata.MD) error { return nil }
+func (s *fakeStream[R]) SetTrailer(metadata.MD)       {}
+func (s *fakeStream[R]) SendMsg(any) error            { return nil }
+func (s *fakeStream[R]) RecvMsg(any) error            { return nil }
+
+func newFake[R any](ctx context.Context, failFrom int) *fakeStream[R] {
+	return &fakeStream[R]{ctx: ctx, failFrom: failFrom}
+}
+
+// the traits driven at SERVER level: the model's ModelServer Pull handler (`for change := range model.Pull…(ctx)
+// { stream.Send }`) on a fake stream
+var serverNames = []string{"onoff", "light", "press", "waste", "airtemperature", "airquality", "energystorage", "fanspeed", "publications", "publication"}
+
+// openServer returns the handler call (blocks until the handler returns) and the i-th write on the model behind it
+func openServer(name string, ctx context.Context, failFrom int, uo bool) (run func(), write func(i int)) {
+	switch name {
+	case "onoff":
+		m := onoffpb.NewModel()
+		srv := onoffpb.NewModelServer(m)
+		return func() {
+				srv.PullOnOff(&traits.PullOnOffRequest{UpdatesOnly: uo}, newFake[traits.PullOnOffResponse](ctx, failFrom))
+			}, func(i int) {
+				m.UpdateOnOff(&traits.OnOff{State: traits.OnOff_State(1 + i%2)})
+			}
+	case "light":
+		m := lightpb.NewModel()
+		srv := lightpb.NewModelServer(m)
+		return func() {
+				srv.PullBrightness(&traits.PullBrightnessRequest{UpdatesOnly: uo}, newFake[traits.PullBrightnessResponse](ctx, failFrom))
+			}, func(i int) {
+				m.UpdateBrightness(&traits.Brightness{LevelPercent: float32(1 + i%90)})
+			}
+	case "press":
+		m := presspb.NewModel(traits.PressedState_UNPRESSED)
+		srv := presspb.NewModelServer(m)
+		return func() {
+				srv.PullPressedState(&traits.PullPressedStateRequest{UpdatesOnly: uo}, newFake[traits.PullPressedStateResponse](ctx, failFrom))
+			}, func(i int) {
+				m.UpdatePressedState(&traits.PressedState{State: traits.PressedState_Press(1 + i%2)})
+			}
+	case "waste":
+		m := wastepb.NewModel()
+		srv := wastepb.NewModelServer(m)
+		return func() {
+				srv.PullWasteRecords(&traits.PullWasteRecordsRequest{UpdatesOnly: uo}, newFake[traits.PullWasteRecordsResponse](ctx, failFrom))
+			}, func(i int) {
+				m.AddWasteRecord(&traits.WasteRecord{Id: fmt.Sprint("r", i)})
+			}
+	case "airtemperature":
+		m := airtemperaturepb.NewModel()
+		srv := airtemperaturepb.NewModelServer(m)
+		return func() {
+				srv.PullAirTemperature(&traits.PullAirTemperatureRequest{UpdatesOnly: uo}, newFake[traits.PullAirTemperatureResponse](ctx, failFrom))
+			}, func(i int) {
+				m.UpdateAirTemperature(&traits.AirTemperature{AmbientHumidity: f32(float32(1 + i%90))})
+			}
+	case "airquality":
+		m := airqualitysensorpb.NewModel()
+		srv := airqualitysensorpb.NewModelServer(m)
+		return func() {
+				srv.PullAirQuality(&traits.PullAirQualityRequest{UpdatesOnly: uo}, newFake[traits.PullAirQualityResponse](ctx, failFrom))
+			}, func(i int) {
+				m.UpdateAirQuality(&traits.AirQuality{CarbonDioxideLevel: f32(float32(400 + i))})
+			}
+	case "energystorage":
+		m := energystoragepb.NewModel()
+		srv := energystoragepb.NewModelServer(m)
+		return func() {
+				srv.PullEnergyLevel(&traits.PullEnergyLevelRequest{UpdatesOnly: uo}, newFake[traits.PullEnergyLevelResponse](ctx, failFrom))
+			}, func(i int) {
+				m.UpdateEnergyLevel(&traits.EnergyLevel{Quantity: &traits.EnergyLevel_Quantity{Percentage: float32(1 + i%90)}})
+			}
+	case "fanspeed":
+		m := fanspeedpb.NewModel()
+		srv := fanspeedpb.NewModelServer(m)
+		return func() {
+				srv.PullFanSpeed(&traits.PullFanSpeedRequest{UpdatesOnly: uo}, newFake[traits.PullFanSpeedResponse](ctx, failFrom))
+			}, func(i int) {
+				m.UpdateFanSpeed(&traits.FanSpeed{Percentage: float32(1 + i%90)})
+			}
+	case "publications", "publication":
+		m := publicationpb.NewModel()
+		m.CreatePublication(&traits.Publication{Id: "p", Body: []byte{0}})
+		srv := publicationpb.NewModelServer(m)
+		write = func(i int) {
+			m.UpdatePublication("p", &traits.Publication{Id: "p", Body: []byte{byte(1 + i%200)}})
+		}
+		if name == "publication" {
+			return func() {
+				srv.PullPublication(&traits.PullPublicationRequest{Id: "p", UpdatesOnly: uo}, newFake[traits.PullPublicationResponse](ctx, failFrom))
+			}, write
+		}
+		return func() {
+			srv.PullPublications(&traits.PullPublicationsRequest{UpdatesOnly: uo}, newFake[traits.PullPublicationsResponse](ctx, failFrom))
+		}, write
+	}
+	return nil, nil
+}
 
 func adapterScenarios(boundMs int) []Scenario {
 	var res []Scenario
@@ -152,11 +242,14 @@ func adapterScenarios(boundMs int) []Scenario {
 		add(AdapterCase{Trait: name, Level: "model", Consume: "drain", Writes: 1, Pre: true})
 		add(AdapterCase{Trait: name, Level: "model", Consume: "stop", StopAfter: 0, Writes: 1, Pre: true, UO: true})
 	}
-	for _, k := range []int{0, 1, 2} {
-		add(AdapterCase{Trait: "onoff", Level: "server", Consume: "stop", StopAfter: k, Writes: 3})
-		add(AdapterCase{Trait: "onoff", Level: "server", Consume: "drain", StopAfter: 1 << 20, Writes: 2 + k})
+	for i, name := range serverNames {
+		for _, k := range []int{0, 1, 2} {
+			// the stream's Send fails from message k+1 on: the handler returns while writers are still active
+			add(AdapterCase{Trait: name, Level: "server", Consume: "stop", StopAfter: k, Writes: 3, UO: (i+k)%3 == 0})
+		}
+		add(AdapterCase{Trait: name, Level: "server", Consume: "drain", StopAfter: 1 << 20, Writes: 2 + i%3})
+		add(AdapterCase{Trait: name, Level: "server", Consume: "drain", StopAfter: 1 << 20, Writes: 1, Pre: true})
 	}
-	add(AdapterCase{Trait: "onoff", Level: "server", Consume: "drain", StopAfter: 1 << 20, Writes: 1, Pre: true})
 	return res
 }
 
@@ -207,13 +300,15 @@ func runAdapter(sc Scenario) (out Outcome) {
 			close(closed)
 		}()
 	case "server":
-		m := onoffpb.NewModel()
-		srv := onoffpb.NewModelServer(m)
-		st := &fakeOnOffStream{ctx: ctx, failFrom: ac.StopAfter, sent: make(chan struct{}, 1)}
-		write = func(i int) { m.UpdateOnOff(&traits.OnOff{State: traits.OnOff_State(1 + i%2)}) }
+		var run func()
+		run, write = openServer(ac.Trait, ctx, ac.StopAfter, ac.UO)
+		if run == nil {
+			o.count("unknown-server:" + ac.Trait)
+			return
+		}
 		close(stopped)
 		go func() {
-			srv.PullOnOff(&traits.PullOnOffRequest{UpdatesOnly: ac.UO}, st)
+			run()
 			close(closed) // the handler returned (Send failed, or the channel was closed)
 		}()
 	}
